@@ -207,6 +207,11 @@ def gen_model(rng, d, arith, allow=None):
         m["labels"] = rng.randint(2, 4)
         m["grow"] = rng.random() < 0.7
         m["omit"] = fam == "multi" and rng.random() < 0.5
+        if arith == "npfloat":
+            # NumPy scalars do not raise on division by zero (C12's territory, not claimed): keep the label
+            # values strictly positive so the normaliser of the marginal prediction cannot be zero
+            m["omit"] = False
+            m["lo"] = 1
     if d >= 2 and rng.random() < 0.3 and fam != "const":
         k = rng.randint(1, max(1, d - 1))
         m["ignore"] = sorted(rng.sample(range(d), k))
@@ -303,6 +308,11 @@ def gen_world_config(rng, focus, arith=None, d=None, names_kind=None):
             if rng.random() < 0.5:
                 iv["n_inner"] = rng.randint(1, 2)
             explainers.append(iv)
+    if arith == "exact" and loss["family"] == "hash" and any(
+            e["cls"] in ("pfi", "sage") and e.get("dynamic", True) and "alpha" not in e for e in explainers):
+        # default alpha is the double 0.001: the library's own weights are rounded, so values that feed the
+        # loss (marginal prediction) are only reproducible to rounding - a discontinuous loss cannot be used
+        loss["family"] = "sq"
     cfg = {
         "arith": arith, "names": names, "names_kind": nk, "seed": rng.getrandbits(32),
         "values": "unique" if rng.random() < 0.8 else "ties",
@@ -362,5 +372,94 @@ def strip_private(cfg):
 def gen_explainer_plan(rng, prop, focus, **kw):
     cfg = gen_world_config(rng, focus, **kw)
     ops = gen_schedule(rng, cfg)
+    strip_private(cfg)
+    return {"property": prop, "kind": "explainer", "config": cfg, "ops": ops, "rs0": rng.getrandbits(48)}
+
+
+# ----------------------------------------------------------------------------------------------
+# batch / interval SAGE worlds (C05, and strata of C15 / C17)
+# ----------------------------------------------------------------------------------------------
+
+def gen_batch_config(rng, arith=None, names_kind=None, classes=None):
+    arith = arith or wchoice(rng, [("exact", 70), ("float", 30)])
+    d = wchoice(rng, [(1, 10), (2, 30), (3, 30), (4, 20), (5, 10)])
+    names, nk = gen_names(rng, d, names_kind)
+    model = gen_model(rng, d, arith, allow=("linear", "hash", "inter", "const", "multi", "zerosum"))
+    model.pop("ignore", None)
+    loss = gen_loss(rng, arith, model)
+    storages, imputers, explainers = [], [], []
+    n_e = wchoice(rng, [(1, 70), (2, 30)])
+    for _ in range(n_e):
+        cls = rng.choice(classes or ["batch", "interval"])
+        e = {"cls": cls}
+        if cls == "interval":
+            e["interval_length"] = rng.randint(1, 7)
+            e["storage_length"] = rng.randint(1, 7)
+            if rng.random() < 0.5:
+                storages.append({"kind": "interval", "size": e["storage_length"], "targets": True})
+                e["storage"] = len(storages) - 1
+        else:
+            if rng.random() < 0.4:
+                kind = wchoice(rng, [("batch", 50), ("interval", 25), ("uniform", 15), ("geometric", 10)])
+                s = {"kind": kind, "targets": True}
+                if kind != "batch":
+                    s["size"] = rng.randint(1, 6)
+                storages.append(s)
+                e["storage"] = len(storages) - 1
+        if rng.random() < 0.6:
+            e["n_inner"] = rng.randint(1, 3)
+        # explicit imputer: only on the explainer's own explicit storage, or a stub
+        if "storage" in e and rng.random() < 0.6:
+            imputers.append({"kind": "marginal", "strategy": "joint" if rng.random() < 0.5 else "product",
+                             "storage": e["storage"]})
+            e["imputer"] = len(imputers) - 1
+        elif rng.random() < 0.25:
+            imputers.append({"kind": "stub", "seed": rng.getrandbits(32)})
+            e["imputer"] = len(imputers) - 1
+        explainers.append(e)
+    return {"arith": arith, "names": names, "names_kind": nk, "seed": rng.getrandbits(32), "values": "unique",
+            "model": model, "loss": loss, "storages": storages, "imputers": imputers, "explainers": explainers,
+            "rng": wchoice(rng, [("perop", 60), ("tape", 25), ("once", 15)]), "record_draws": True}
+
+
+def gen_batch_schedule(rng, cfg, T=None):
+    b = Builder(rng, cfg)
+    T = T or wchoice(rng, [(rng.randint(3, 8), 35), (rng.randint(8, 20), 45), (rng.randint(20, 40), 20)])
+    n_e = len(cfg["explainers"])
+    while len(b.ops) < T:
+        k = rng.randrange(n_e)
+        e = cfg["explainers"][k]
+        kind = wchoice(rng, [("explain", 62), ("many", 12 if e["cls"] == "batch" else 0), ("learn", 8),
+                             ("store", 8), ("observe", 10)])
+        if kind == "explain":
+            b.explain(k)
+        elif kind == "many":
+            own = ("explicit", e["storage"]) if "storage" in e else ("own", k)
+            original = rng.random() < 0.45
+            if not original and b.storage_count(own) == 0 and ("imputer" not in e or
+                                                                cfg["imputers"][e["imputer"]]["kind"] == "marginal"):
+                b.store(own)
+            tags = [b.pick_tag(0.3) for _ in range(rng.randint(1, 6))]
+            op = {"op": "many_orig" if original else "many", "e": k, "tags": tags}
+            if rng.random() < 0.3:
+                op["n_inner"] = rng.randint(1, 3)
+            b.add(op)
+        elif kind == "learn":
+            b.add({"op": "learn"})
+        elif kind == "store":
+            if "storage" in e:
+                tag = b.fresh_tag()
+                b.add({"op": "store", "e": k, "tag": tag})
+                b.st_count[e["storage"]] += 1
+            else:
+                b.store(("own", k))
+        else:
+            b.add({"op": "observe", "e": k})
+    return b.ops
+
+
+def gen_batch_plan(rng, prop, **kw):
+    cfg = gen_batch_config(rng, **kw)
+    ops = gen_batch_schedule(rng, cfg)
     strip_private(cfg)
     return {"property": prop, "kind": "explainer", "config": cfg, "ops": ops, "rs0": rng.getrandbits(48)}
